@@ -43,8 +43,8 @@ RUNS = {  # (quick, thorough)
 # "other_findings" and left to the property that owns it
 RELEVANT = {
     "C07": {"dispatch-dependent-output", "crash", "guard-page"},
-    "C11": {"asan", "garbage-dependent-output", "leak", "frame-write", "crash", "guard-page"},
-    "C12": {"race", "schedule-dependent-output", "frozen-write", "deadlock", "crash", "guard-page"},
+    "C11": {"asan", "garbage-dependent-output", "leak", "frame-write", "crash", "guard-page", "hang"},
+    "C12": {"race", "schedule-dependent-output", "frozen-write", "deadlock", "crash", "guard-page", "hang"},
     "C15": {"history-dependent-output", "crash", "guard-page"},
     "C16": {"model-mismatch"},
     "C18": {"frozen-write", "ro-write", "source-modified"},
@@ -113,7 +113,7 @@ class Finding:
         if k == "race":
             return "race(%s)" % ",".join(sorted(self.extra.get("fns", ["?"])))
         if k in ("asan",):
-            return "asan(%s,%s,%s)" % (self.extra.get("desc", "?"), self.op, self.extra.get("fn", "?"))
+            return "asan(%s,%s)" % (self.op, self.extra.get("fn", "?"))
         if k in ("crash", "frozen-write", "ro-write", "guard-page"):
             return "%s(%s,%s)" % (k, self.op, self.extra.get("fn", "?"))
         return "%s(%s)" % (k, self.op)
@@ -229,8 +229,11 @@ def replay_once(binary, path, extra_args=()):
     return res, events, r.returncode
 
 
-def findings_of(binary, world, variant, flavour, res, events):
+def findings_of(binary, world, variant, flavour, res, events, rc=0):
     out = []
+    if res is None and not events and rc != 0:
+        hang = rc in (-14, 142)
+        out.append(Finding(world, variant, flavour, -1, 0, "hang" if hang else "crash", "?", "replay process ended with status %d" % rc, {"fn": "?"}))
     if res:
         for v in res.get("viol", []):
             if v["kind"] == "invalid-program":
@@ -301,12 +304,12 @@ def minimise(binary, world, variant, flavour, path, target_cls, budget_s=25):
         tmp = path + ".cand"
         json.dump(sp, open(tmp, "w"))
         try:
-            res, events, _ = replay_once(binary, tmp)
+            res, events, rc = replay_once(binary, tmp)
         except subprocess.TimeoutExpired:
             return False
         if res and res.get("status") == "invalid":
             return False
-        return any(f.cls() == target_cls for f in findings_of(binary, world, variant, flavour, res, events))
+        return any(f.cls() == target_cls for f in findings_of(binary, world, variant, flavour, res, events, rc))
 
     prog = spec["program"]
     changed = True
@@ -491,7 +494,9 @@ def main():
             elif kind == "died":
                 kv = parse_kv(payload.split())
                 if kv.get("exit") not in ("78", "77", "79"):
-                    findings.append(Finding(world, variant, fl, int(kv.get("run", -1)), int(kv.get("seed", 0)), "crash", "?", "process died: " + payload, {"fn": "?"}))
+                    hang = kv.get("signal") == "14"
+                    findings.append(Finding(world, variant, fl, int(kv.get("run", -1)), int(kv.get("seed", 0)), "hang" if hang else "crash", "?",
+                                            ("run did not finish within its wall-clock budget: " if hang else "process died: ") + payload, {"fn": "?"}))
                     status["died"] += 1
                     local["runs"] += 1
 
@@ -543,8 +548,8 @@ def main():
             print("MACHINERY: could not produce a replay file for %s (run %d)" % (cls, f.run))
             return 2
         merge_streamed_decisions(path)
-        res, events, _ = replay_once(binary, path)
-        got = findings_of(binary, f.world, f.variant, f.flavour, res, events)
+        res, events, rc0 = replay_once(binary, path)
+        got = findings_of(binary, f.world, f.variant, f.flavour, res, events, rc0)
         if not any(g.cls() == cls for g in got):
             print("MACHINERY: replay of run %d did not reproduce %s (got %s)" % (f.run, cls, [g.cls() for g in got]))
             return 2
@@ -561,27 +566,27 @@ def main():
             if e2 or r2 is None:
                 other["crash-independent-of-memory-plan:%s" % f.op] += len(fl_list)
                 continue
-        if prop == "C12" and f.kind in ("schedule-dependent-output", "crash", "guard-page"):
+        if prop == "C12" and f.kind in ("schedule-dependent-output", "crash", "guard-page", "hang"):
             # pristine serial reference in a fresh process: if it differs from the in-process serial re-execution, the
             # difference is history dependence (C15), not the interleaving
             r2, e2, _ = replay_once(binary, path, ["--serial-only"])
-            if f.kind in ("crash", "guard-page") and (e2 or r2 is None):
+            if f.kind in ("crash", "guard-page", "hang") and (e2 or r2 is None):
                 other["crash-also-serial:%s" % f.op] += len(fl_list)
                 continue
             if f.kind == "schedule-dependent-output" and r2 and res and r2.get("task_hash_serial") != res.get("task_hash_serial"):
                 other["history-dependent(serial re-execution differs from pristine serial):%s" % f.op] += len(fl_list)
                 continue
-        if len(violations) + len(known_hits) < 3:
+        if len(violations) + len(known_hits) < 3 and f.kind != "hang":
             tries, ncalls, ndec = minimise(binary, f.world, f.variant, f.flavour, path, cls)
         else:
             # further classes of the same batch are reported with their un-minimised (still explicit) replay
             sp = json.load(open(path))
             tries, ncalls, ndec = 0, len(sp["program"]["calls"]), len(sp.get("sched", {}).get("decisions", []))
         # gate: two fresh processes, identical event-log hashes, same class
-        r1, e1, _ = replay_once(binary, path)
-        r2, e2, _ = replay_once(binary, path)
-        g1 = [g.cls() for g in findings_of(binary, f.world, f.variant, f.flavour, r1, e1)]
-        g2 = [g.cls() for g in findings_of(binary, f.world, f.variant, f.flavour, r2, e2)]
+        r1, e1, rc1 = replay_once(binary, path)
+        r2, e2, rc2 = replay_once(binary, path)
+        g1 = [g.cls() for g in findings_of(binary, f.world, f.variant, f.flavour, r1, e1, rc1)]
+        g2 = [g.cls() for g in findings_of(binary, f.world, f.variant, f.flavour, r2, e2, rc2)]
         h1 = r1.get("log_hash") if r1 else "fault:" + ";".join(e1)
         h2 = r2.get("log_hash") if r2 else "fault:" + ";".join(e2)
         if cls not in g1 or cls not in g2 or h1 != h2:
